@@ -3,8 +3,8 @@ NEXT Next
 CONSTANTS
   MaxOwn = 2
   MaxScen = 2
-  OtherModes = {"none", "after"}
-  EmitMod = 31
+  OtherModes = {"after"}
+  EmitMod = 19
 INVARIANT ClausesHold
 INVARIANT RepairedHolds
 INVARIANT KFNarrow
